@@ -367,7 +367,9 @@ def run(ctx):
     n9 = 0
     for g in P.find_fns(r'^ripd::tasks::'):
         aps = g.calls(r'^ripd::tasks::logs::TaskLogWriter::append$')
-        ems = [s_ for s_ in g.sites() if re.search(r'TaskEmitter::emit$', s_.callee or '')]
+        from .c05 import _does as _does6
+        # the emission itself, or a helper of the task module that does it (`emit_output_delta(emitter, ..)`)
+        ems = [s_ for s_ in g.sites() if re.search(r'TaskEmitter::emit$', s_.callee or '') or ((s_.callee or '').startswith('ripd::tasks::') and not re.search(r'TaskLogWriter::', s_.callee or '') and _does6(P, s_.callee, r'TaskEmitter::emit$'))]
         for ap in aps:
             h6 = g.innermost_loop(ap.bb)
             if h6 is None:
@@ -431,7 +433,9 @@ def run(ctx):
                     pl_ = op_place(o_)
                     if pl_ and any(isinstance(pp, dict) and CAPF.match(str(pp.get('n', ''))) for pp in pl_.get('p', [])) and not st_['d'].get('p'):
                         capl.add(st_['d']['l'])
-        mins = g.calls(r'::min$')
+        from .c05 import _does
+        # min(..) itself, or a workspace helper that computes one (`room_left(cap, stored, len)`)
+        mins = [s_ for s_ in g.sites() if _does(P, s_.callee, r'::min$|::clamp$') and not re.search(r'AsyncWriteExt|Write>::|::poll', s_.callee or '')]
         for w_ in ws_:
             n8 += 1
             ctx.touch(g)
